@@ -124,7 +124,7 @@ var worstDep = map[string]depObs{}
 func wireBaseline(kind string, b []byte) (uint64, time.Duration) {
 	var m0, m1 runtime.MemStats
 	runtime.ReadMemStats(&m0)
-	t0 := time.Now()
+	t0 := cpuNow()
 	vh.Catch(func() {
 		if kind == "tx" {
 			var m wire.MsgTx
@@ -134,7 +134,7 @@ func wireBaseline(kind string, b []byte) (uint64, time.Duration) {
 			_ = m.Deserialize(bytes.NewReader(b))
 		}
 	})
-	dt := time.Since(t0)
+	dt := cpuNow() - t0
 	runtime.ReadMemStats(&m1)
 	a := m1.TotalAlloc - m0.TotalAlloc
 	name := "wire.MsgTx.Deserialize"
@@ -697,7 +697,7 @@ func runWire(rng *vh.RNG) {
 
 	// ===== scaling probes =====
 	// merkle extraction: honest proof revealing every transaction (flag bits ~ 2n), and an all-ones flag array
-	scaleProbe("merkleblock.ExtractMatches", cfg.Scale(3000, 10000), 3, func(n int) (func(), func() interface{}) {
+	scaleProbe("merkleblock.ExtractMatches", cfg.Scale(3000, 10000), 5, func(n int) (func(), func() interface{}) {
 		blk := wire.NewMsgBlock(wire.NewBlockHeader(1, &chainhash.Hash{}, &chainhash.Hash{}, 0, 0))
 		var set []*chainhash.Hash
 		for i := 0; i < n; i++ {
@@ -718,7 +718,7 @@ func runWire(rng *vh.RNG) {
 				return map[string]interface{}{"family": "honest proof revealing every transaction of an n-transaction block", "transactions": n, "flag_bytes": len(mb.Flags), "hashes": len(mb.Hashes)}
 			}
 	})
-	scaleProbe("merkleblock.ExtractMatches", cfg.Scale(4000, 16000), 3, func(n int) (func(), func() interface{}) {
+	scaleProbe("merkleblock.ExtractMatches", cfg.Scale(4000, 16000), 5, func(n int) (func(), func() interface{}) {
 		msg := &wire.MsgMerkleBlock{Transactions: maxTxn, Hashes: mkHashes(n*4, 1), Flags: bytesOf(0xff, n)}
 		return func() {
 				pb := merkleblock.NewMerkleBlockFromMsg(*msg)
@@ -728,7 +728,7 @@ func runWire(rng *vh.RNG) {
 			}
 	})
 	// block scan, sparse chain (tx k spends tx k-1), reverse order, every transaction matches: n vs 2n
-	scaleProbe("bloom.NewMerkleBlock", cfg.Scale(300, 800), 3, func(n int) (func(), func() interface{}) {
+	scaleProbe("bloom.NewMerkleBlock", cfg.Scale(300, 800), 5, func(n int) (func(), func() interface{}) {
 		blk := bchutil.NewBlock(chainBlock(n, false))
 		return func() { bloom.NewMerkleBlock(blk, bloom.LoadFilter(fullFilter(8))) }, func() interface{} {
 			return map[string]interface{}{"family": "n transactions, tx k spends tx k-1, listed in reverse order; filter of eight 0xff bytes", "transactions": n}
@@ -751,9 +751,9 @@ func runWire(rng *vh.RNG) {
 				fl := fullFilter(8)
 				rp := flReplay(fl, map[string]interface{}{"family": "n transactions, tx k spends one output of every earlier tx, listed in reverse topological order", "transactions": n, "block_hex": vh.Hex(raw)})
 				wd.begin("bloom.GetMatchedIndices", rp)
-				t0 := time.Now()
+				t0 := cpuNow()
 				p, msg := vh.Catch(func() { calls = len(bloom.GetMatchedIndices(blk, bloom.LoadFilter(fl))) })
-				d := time.Since(t0)
+				d := cpuNow() - t0
 				wd.end()
 				rep.Count("bloom.GetMatchedIndices/scale", fmt.Sprintf("chain%d", n), true)
 				if p {
